@@ -281,7 +281,10 @@ def run(ctx):
     depth = 2 if ctx.tier == 'quick' else 3
     shapes = W.call_shapes()
     nassign = len(W.assignments())
-    items = [(f, depth, ai, ctx.seed) for ai in range(nassign) for f in range(len(shapes))]
+    # depth 2 for every kind assignment; depth 3 (thorough) for every third assignment (each data kind still occurs in all 3 slots)
+    items = [(f, 2, ai, ctx.seed) for ai in range(nassign) for f in range(len(shapes))]
+    if depth >= 3:
+        items = [it for it in items if it[2] % 3] + [(f, 3, ai, ctx.seed) for ai in range(0, nassign, 3) for f in range(len(shapes))]
     m = merge(ctx.map(_worker, items, chunksize=2) + ctx.map(_copy_worker, [(ai, ctx.seed) for ai in range(nassign)]))
     c = m['counters']
     vac = []
